@@ -94,13 +94,26 @@ theorem step_mode {o : Oracle} {op : Nat} {s s' : St} {io io' : Io} {e : Ev}
   | mdOut hM hop hpend hlf hst hnz hao hle => rfl
   | mdTiny hM hop hpend hlf hst hnz hao hle => rfl
 
+/-- why a loop of `compress_stream` breaks: none of its actions applies -/
+def ExitOK (op : Nat) (s : St) (io : Io) : Prop :=
+  (fastMode s.params ∧ ¬ (s.pending.length = 0 ∧ s.streamState = .processing ∧ (io.availIn ≠ 0 ∨ op ≠ 0))) ∨
+  (¬ fastMode s.params ∧ ¬ (remainingInputBlockSize s ≠ 0 ∧ io.availIn ≠ 0)
+    ∧ ¬ (s.pending.length = 0 ∧ s.streamState = .processing ∧ (remainingInputBlockSize s = 0 ∨ op ≠ 0)))
+
+theorem ExitOK.nonzero {op : Nat} {s : St} {io : Io} (h : ExitOK op s io) (h0 : op ≠ 0) :
+    ¬ (s.pending.length = 0 ∧ s.streamState = .processing) := by
+  intro hh
+  rcases h with ⟨_, h1⟩ | ⟨_, _, h1⟩
+  · exact h1 ⟨hh.1, hh.2, Or.inr h0⟩
+  · exact h1 ⟨hh.1, hh.2, Or.inr h0⟩
+
 /-! ### the main loop -/
 
 theorem slowStep_steps {o : Oracle} {op : Nat} {c0 : SState} {n total : Nat} {s s' : St} {io io' : Io} {c : Ctl}
     (hop : op ≤ 2) (hnf : ¬ fastMode s.params) (hP : SlowInv op c0 n total s io) (h : slowStep o op s io = .ok (s', io', c)) :
     (c = .cont ∧ ∃ e, e ≠ .tau 0 ∧ Step o op (s, io) e (s', io')) ∨
     (c = .brk ∧ s' = s ∧ io' = io ∧ Step o op (s, io) (.tau 0) (checkFlushComplete s, io)
-      ∧ (op ≠ 0 → ¬ (s.pending.length = 0 ∧ s.streamState = .processing))) := by
+      ∧ ExitOK op s io) := by
   have hI := hP.inv
   have hw : s.inputPos + io.availIn < two64 := by rw [hP.sum]; exact hP.nowrap
   have hnz := hP.nonprocZero
@@ -162,12 +175,12 @@ theorem slowStep_steps {o : Oracle} {op : Nat} {c0 : SState} {n total : Nat} {s 
       · rename_i hne
         simp only [Out.ok.injEq, Prod.mk.injEq] at h
         obtain ⟨rfl, rfl, rfl⟩ := h
-        exact Or.inr ⟨rfl, rfl, rfl, Step.cfc hI hop hP.rm p1 hnz, fun h0 hh => hne ⟨hh.1, hh.2, Or.inr h0⟩⟩
+        exact Or.inr ⟨rfl, rfl, rfl, Step.cfc hI hop hP.rm p1 hnz, Or.inr ⟨hnf, hc, hne⟩⟩
 
 theorem slowLoop_steps {o : Oracle} {op : Nat} {c0 : SState} {n total : Nat} (hop : op ≤ 2) :
     ∀ fuel s io s' io' r, ¬ fastMode s.params → SlowInv op c0 n total s io → slowLoop o op fuel s io = .ok (s', io', r) →
       ∃ evs s1, Steps o op (s, io) evs (s1, io') ∧ (∀ e ∈ evs, e ≠ .tau 0) ∧ Step o op (s1, io') (.tau 0) (s', io')
-        ∧ s' = checkFlushComplete s1 ∧ (op ≠ 0 → ¬ (s1.pending.length = 0 ∧ s1.streamState = .processing)) := by
+        ∧ s' = checkFlushComplete s1 ∧ ExitOK op s1 io' := by
   intro fuel
   induction fuel with
   | zero => intro s io s' io' r _ _ h; simp [slowLoop] at h
@@ -202,7 +215,7 @@ set_option maxRecDepth 4000 in
 theorem fastStep_steps {o : Oracle} {op : Nat} {c0 : SState} {n : Nat} {s s' : St} {io io' : Io} {b : Bool}
     (hop : op ≤ 2) (hP : FastInv op c0 n s io) (h : fastStep o op s io = .ok (s', io', b)) :
     (b = true ∧ ∃ e, e ≠ .tau 0 ∧ Step o op (s, io) e (s', io')) ∨
-    (b = false ∧ s' = s ∧ io' = io ∧ ¬ PadDue s ∧ (op ≠ 0 → ¬ (s.pending.length = 0 ∧ s.streamState = .processing))) := by
+    (b = false ∧ s' = s ∧ io' = io ∧ ¬ PadDue s ∧ ExitOK op s io) := by
   have hI := hP.inv
   have hnz := hP.nonprocZero
   unfold fastStep at h
@@ -261,11 +274,11 @@ theorem fastStep_steps {o : Oracle} {op : Nat} {c0 : SState} {n : Nat} {s s' : S
     · rename_i hne
       simp only [Out.ok.injEq, Prod.mk.injEq] at h
       obtain ⟨rfl, rfl, rfl⟩ := h
-      exact Or.inr ⟨rfl, rfl, rfl, p1, fun h0 hh => hne ⟨hh.1, hh.2, Or.inr h0⟩⟩
+      exact Or.inr ⟨rfl, rfl, rfl, p1, Or.inl ⟨hP.fm, hne⟩⟩
 
 theorem fastLoop_steps {o : Oracle} {op : Nat} {c0 : SState} {n : Nat} (hop : op ≤ 2) :
     ∀ fuel s io s' io', FastInv op c0 n s io → fastLoop o op fuel s io = .ok (s', io') →
-      FastInv op c0 n s' io' ∧ ¬ PadDue s' ∧ (op ≠ 0 → ¬ (s'.pending.length = 0 ∧ s'.streamState = .processing))
+      FastInv op c0 n s' io' ∧ ¬ PadDue s' ∧ ExitOK op s' io'
         ∧ ∃ evs, Steps o op (s, io) evs (s', io') ∧ (∀ e ∈ evs, e ≠ .tau 0) := by
   intro fuel
   induction fuel with
